@@ -558,11 +558,8 @@ harnesses! {
     c02_l2_dw { prop: C02, feat: "c02", tier: quick, mode: leaf, unwind: 18, caps: "drop=1" } => |s| c06::data_w(s, 2, 0);
     c02_l2_dd { prop: C02, feat: "c02", tier: thorough, mode: leaf, unwind: 18, caps: "drop=1" } => |s| c06::data_w(s, 4, 0);
     c02_l2_dq { prop: C02, feat: "c02", tier: thorough, mode: leaf, unwind: 18, caps: "drop=1" } => |s| c06::data_w(s, 8, 0);
-    // ---- pass-level step harnesses (real build_pass_1 + build_pass_2, concrete shape, symbolic values)
-    c02_step_nop { prop: C02, feat: "c02", tier: thorough, mode: leaf, unwind: 3, caps: "drop=1,loop:avra_lib::builder::pass1::pass_1_internal.0=4,loop:avra_lib::builder::pass2::pass_2_internal.0=4" } => |s| step::layout_instr(s, 0, false);
-    c02_step_jmp { prop: C02, feat: "c02", tier: thorough, mode: leaf, unwind: 3, caps: "drop=1,loop:avra_lib::builder::pass1::pass_1_internal.0=4,loop:avra_lib::builder::pass2::pass_2_internal.0=4" } => |s| step::layout_instr(s, 1, false);
-    c02_step_lds { prop: C02, feat: "c02", tier: thorough, mode: leaf, unwind: 3, caps: "drop=1,loop:avra_lib::builder::pass1::pass_1_internal.0=4,loop:avra_lib::builder::pass2::pass_2_internal.0=4" } => |s| step::layout_instr(s, 2, false);
-    c02_step_sts8l { prop: C02, feat: "c02", tier: thorough, mode: leaf, unwind: 3, caps: "drop=1,loop:avra_lib::builder::pass1::pass_1_internal.0=4,loop:avra_lib::builder::pass2::pass_2_internal.0=4" } => |s| step::layout_instr(s, 3, true);
+    // (pass-level step harnesses: src/step.rs is kept for the record, but its harnesses are not
+    //  registered - the smallest one did not leave symbolic execution in 60 min, DESIGN.md 4/C02)
     c05_func_log2_neg { prop: C05, feat: "c05", tier: quick, mode: full, unwind: 67, caps: "run=2,clone=1,drop=2" } => |s| c05::ev_func(s, 9, 10, 0);
     c12_device_select { prop: C12, feat: "c12", tier: thorough, mode: full, unwind: 60, caps: "run=1,clone=1,drop=1" } => |s| c12::device_select(s);
     c07_hex_4k { prop: C07, feat: "c07", tier: quick, mode: hex, unwind: 262, caps: "" } => |s| c07::hex_big(s, 4113);
